@@ -45,9 +45,14 @@ def natural_runs(pl, res, reps, tag):
     path = os.path.join(pl.dir, f"natural_{tag}.ndjson")
     with open(path, "w") as f:
         f.write("\n".join(lines) + "\n")
+    # every second run takes the inputs in reverse order: each build is then preceded by other builds in its process
+    # (C09: the result does not depend on how often, or after what, the build is repeated in one process)
+    rpath = os.path.join(pl.dir, f"natural_{tag}_rev.ndjson")
+    with open(rpath, "w") as f:
+        f.write("\n".join(reversed(lines)) + "\n")
     outs = []
     for r in range(reps):
-        obs_path, _ = harness.replay(path, os.path.join(pl.dir, f"nat_{tag}_{r}"),
+        obs_path, _ = harness.replay(rpath if r % 2 else path, os.path.join(pl.dir, f"nat_{tag}_{r}"),
                                      ["--emit-dir", os.path.join(pl.dir, f"emit_nat_{tag}_{r}")], jobs=8)
         outs.append({o["id"]: o for o in tlc.read_ndjson(obs_path)})
     return outs
